@@ -43,4 +43,10 @@ META = {
         "level_text": "Sequential histories of bind/unbind calls by three peers are compared with a reference registry (verdicts, Bindings(peer), BindingsOnFeature<=1, ids, events). The schedule clause is decided by enumerating every merge order of 2 and 3 concurrent bind requests around the check-then-insert window (controlled through the verif yield point) and by free-running rounds on real goroutines.",
         "level_note": "Trusted: the sched engine (goroutine parking at yield points, 30 ms quiescence to detect lock waits). Interleavings outside the instrumented window are only reached by stress.",
     },
+    "C03": {
+        "technique": "model-based property testing (rapid state machine); each write judged by a validity predicate relative to the binding registry and announced operations read immediately before it",
+        "design_ref": "DESIGN.md §4 C03",
+        "level_text": "Interleaved histories of bind, unbind, reconnect, entity removal, subscription and write operations by three peers; every write is checked for the full set of observable effects (data, notifications on every connection, events, results) against the authorisation that held at that moment, including the immediacy clauses (accepted right after a granted binding; rejected right after unbind, reconnect, entity removal and re-addition).",
+        "level_note": "Trusted: reference fold for the effect of accepted writes; acceptance of authorised partial writes is not predicted (C04 owns protection), only its consistency; full writes must be accepted.",
+    },
 }
